@@ -14,7 +14,8 @@ AFTER_SEED = {
  "C02": ["round 1: UNDERFLOW-LEGAL's separator-slot clause and ASSIGN-ORDER written with C02_A/B known; round 2: C02_C (same slip as C01_B) and C02_D reported by NODE-CAPACITY / ROOT-COLLAPSE (existed)"],
  "C03": ["round 1: HOME-BEFORE-INPLACE and LCP-SLOT0 written with C03_A/B known; round 2: C03_C/D reported by DEPTH-ADVANCE and ENTRY-FORWARD/CHAR-UNSIGNED (existed)"],
  "C04": ["round 1: COPY-BACK and the memory-order clause of RMW-RESULT; round 2: C04_D reported by USE-AFTER-RELEASE (existed), PACKED-LCP-MASK written with C04_C known; "
-         "STALE-DATA-POINTER written after a sub-agent's side remark, it found a genuine defect"],
+         "STALE-DATA-POINTER written after a sub-agent's side remark, it found a genuine defect; RESULT-ARRAY written after two refactoring sub-agents reported wrong LCP values of the "
+         "pristine code under tiny thresholds, it found a genuine defect"],
  "C05": ["round 1: PHASE-LENGTH-SUM, TAIL-ORDER; round 2: C05_D reported by SENTINEL-REACH (existed), C05_C by C09's REPLAY-TABLE once applied to the trees C05 instantiates"],
  "C06": ["round 1: SPLIT-INDEX-BOUND; round 2: C06_D reported by SPLIT-INDEX-BOUND (existed), C06_C by C09's REPLAY-TABLE once applied to the trees C06 instantiates"],
  "C07": ["round 2: C07_C/D sit in multisequence_partition and are reported by LEXI-TABLE / TWIN-AGREE once C08's rules are applied inside C07; the sub-agent's side remark on sampling "
@@ -37,6 +38,9 @@ AFTER_SEED = {
          "division (C20_C), closed"],
 }
 DROPPED = {
+ "C03": ["INSSORT-TWINS compared the general iteration of the LCP insertion sort with its peeled last iteration as text (alpha-renamed): it fired on a behaviour-preserving restructuring of one of the two (§10) and was dropped; no semantic replacement is in reach"],
+ "C08": ["TWIN-AGREE compared the decisions of multisequence_partition with those of multisequence_selection as text: it fired on one-sided behaviour-preserving edits (§10). It was replaced by rules that state the requirement directly and caught every seed it used to catch: GUARD-EXACT (a guarding edge is exactly `the element exists`, as a canonical linear inequality) and LEFT-BORDER-BOUND"],
+ "C20": ["PLUS-TWINS compared operator+ with operator+= ; replaced by PLUS-COMBINES, which evaluates each of them on sample states and observes the helper calls"],
  "C07": ["LAST-SLAB-END: after the ADVANCE-EXACT fix the last slab's end is no longer a necessary condition; seed C07_A became behaviour-preserving (its demo passes) and is kept as the silent variant selftest/C07/silent_last_slab_to_end.patch"],
  "C13": ["RANK-TABLE: the library's own static_asserts already enforce it"],
  "C17": ["LRU-SIBLINGS: fired on a behaviour-preserving variant (Set and Map may legitimately differ in a fast path)"],
